@@ -15,6 +15,7 @@ def setup():
     from contracts import nested
     nested.ABSTRACT_DISABLED = True          # E2 needs the contents of nested objects: they are interpreted
     F.DEFAULT_BOUND = None
+    F.BOUNDS[('DnsRecordTxt.compose', 0)] = 3          # text of up to 765 octets (3 character-strings): bounded stand-in
     from contracts import hints
     hints.register()
 
